@@ -15,9 +15,10 @@ from harness.runner import run_property
 PROP = "C08"
 THEOREMS = ["Lbfgsb.C01.gcp_first_local_min_curv", "Lbfgsb.C01.kernel_minCtx", "Lbfgsb.C09.middle_product_exact", "Lbfgsb.C09.gcp_first_local_min_solved", "Lbfgsb.C08.order_sorted", "Lbfgsb.C08.order_positive", "Lbfgsb.C08.order_nodup", "Lbfgsb.C08.gcp_in_box", "Lbfgsb.C08.gcp_on_projected_path",
             "Lbfgsb.C08.gcp_first_local_min", "Lbfgsb.C08.gcp_model_le", "Lbfgsb.C08.gcp_model_lt", "Lbfgsb.C08.gcp_model_neg", "Lbfgsb.C08.minCtx_nopairs", "Lbfgsb.C08.middle_symm",
-            "Lbfgsb.C08.firstLocalMin_unique", "Lbfgsb.C08.gcp_is_the_first_local_min", "Lbfgsb.C08.cauchy_unconstrained_step", "Lbfgsb.C08.cauchy_point_units", "Lbfgsb.C08.cauchy_units_nofactor"]
+            "Lbfgsb.C08.firstLocalMin_unique", "Lbfgsb.C08.gcp_is_the_first_local_min", "Lbfgsb.C08.cauchy_unconstrained_step", "Lbfgsb.C08.cauchy_point_units", "Lbfgsb.C08.cauchy_units_nofactor",
+            "Lbfgsb.C08.cauchy_point_shift", "Lbfgsb.C08.cauchy_shift_nofactor"]
 MODULES = ["LbfgsbVerif.Props.C01Curv", "LbfgsbVerif.Props.C09Solve", "LbfgsbVerif.Props.C08", "LbfgsbVerif.Props.C08Path", "LbfgsbVerif.Props.C08Min",
-            "LbfgsbVerif.Props.C08Unique", "LbfgsbVerif.Props.C08Free", "LbfgsbVerif.Props.C08Units"]
+            "LbfgsbVerif.Props.C08Unique", "LbfgsbVerif.Props.C08Free", "LbfgsbVerif.Props.C08Units", "LbfgsbVerif.Props.C08Shift"]
 
 
 def check_point(inp, xcp, c) -> List[Dict[str, Any]]:
